@@ -3,7 +3,8 @@
    - single / complete: any carrier with a strict weak order;
    - average / weighted / ward: exact rational arithmetic. *)
 Require Import KV.Model.Prelude KV.Model.Condensed KV.Model.Dendrogram KV.Model.Methods KV.Model.State KV.Model.Chain
-  KV.Proofs.ShapeCheck KV.Proofs.RelabelWF KV.Proofs.Criteria KV.Proofs.CriteriaRun KV.Proofs.ChainIter.
+  KV.Proofs.ShapeCheck KV.Proofs.RelabelWF KV.Proofs.Criteria KV.Proofs.CriteriaRun KV.Proofs.ChainIter
+  KV.Model.Cost KV.Proofs.ChainCost.
 From Coq Require Import QArith Qfield Field Lqa.
 
 Set Implicit Arguments.
@@ -41,6 +42,19 @@ Theorem nnchain_complete_total_wf s d (m : list T) (n : N) :
 Proof.
   apply (@nnchain_total_wf T (kops_of F Complete) p Complete ltb_irrefl ltb_trans ltb_negtrans).
   intros va vb md sa sb sx _ _ _. apply complete_reducible.
+Qed.
+
+Theorem nnchain_selection_cost meth s d (m : list T) (n : N) s' d' m' cnt :
+  meth = Single \/ meth = Complete ->
+  (n < two32)%N -> wf_shape n (N.of_nat (length m)) ->
+  nnchain_with_c (kops_of F meth) p meth s d m n = Ok (s', d', m', cnt) ->
+  (cnt <= 6 * n * n + 10 * n)%N.
+Proof.
+  intros [-> | ->].
+  - apply (@nnchain_cost T (kops_of F Single) p Single ltb_irrefl ltb_trans ltb_negtrans).
+    intros va vb md sa sb sx _ _ _. apply single_reducible.
+  - apply (@nnchain_cost T (kops_of F Complete) p Complete ltb_irrefl ltb_trans ltb_negtrans).
+    intros va vb md sa sb sx _ _ _. apply complete_reducible.
 Qed.
 
 End Sel.
@@ -112,6 +126,16 @@ Theorem nnchain_Q_total_wf meth s d (m : list Q) (n : N) :
   \/ nnchain_with (kops_of (QFr rt) meth) p meth s d m n = Panic PNaN.
 Proof.
   intros Hm. apply (@nnchain_total_wf Q (kops_of (QFr rt) meth) p meth qlt_irrefl qlt_trans qlt_negtrans).
+  apply q_reducible. exact Hm.
+Qed.
+
+Theorem nnchain_Q_cost meth s d (m : list Q) (n : N) s' d' m' cnt :
+  meth = Average \/ meth = Weighted \/ meth = Ward ->
+  (n < two32)%N -> wf_shape n (N.of_nat (length m)) ->
+  nnchain_with_c (kops_of (QFr rt) meth) p meth s d m n = Ok (s', d', m', cnt) ->
+  (cnt <= 6 * n * n + 10 * n)%N.
+Proof.
+  intros Hm. apply (@nnchain_cost Q (kops_of (QFr rt) meth) p meth qlt_irrefl qlt_trans qlt_negtrans).
   apply q_reducible. exact Hm.
 Qed.
 
